@@ -52,11 +52,47 @@ type Entry struct {
 	Alive   []bool `json:"alive,omitempty"`   // per minted sid: present and alive at the server
 	Present []bool `json:"present,omitempty"` // per minted sid: present at the server
 	// C07
-	Look      []bool `json:"look,omitempty"`    // per minted sid: SessionCache.Lookup finds it
-	Routes    []int  `json:"routes,omitempty"`  // per triple: LookupByCommand result (0 = none)
-	AllowedBy []int  `json:"allowed,omitempty"` // per triple: mayReuse (0 = none)
-	Gone      []int  `json:"gone,omitempty"`
-	Brk       bool   `json:"brk,omitempty"`
+	Look      []bool          `json:"look,omitempty"` // per minted sid: SessionCache.Lookup finds it
+	RoutesRaw json.RawMessage `json:"routes,omitempty"`
+	AllowRaw  json.RawMessage `json:"allowed,omitempty"`
+	Gone      []int           `json:"gone,omitempty"`
+	Brk       bool            `json:"brk,omitempty"`
+	// filled by ParseScenario from RoutesRaw / AllowRaw, indexed like Scenario.Triples
+	Routes    []int `json:"-"` // per triple: LookupByCommand result (0 = none)
+	AllowedBy []int `json:"-"` // per triple: mayReuse (0 = none)
+}
+
+// perTriple turns the generator's set of <<tag, addr, cmd, sid>> tuples into an
+// array indexed like triples.
+func perTriple(raw json.RawMessage, triples [][]string) ([]int, error) {
+	out := make([]int, len(triples))
+	if len(raw) == 0 {
+		return out, nil
+	}
+	var tuples [][]any
+	if err := json.Unmarshal(raw, &tuples); err != nil {
+		return nil, err
+	}
+	for _, t := range tuples {
+		if len(t) != 4 {
+			return nil, fmt.Errorf("bad route tuple %v", t)
+		}
+		sid, ok := t[3].(float64)
+		if !ok {
+			return nil, fmt.Errorf("bad route tuple %v", t)
+		}
+		found := false
+		for i, tr := range triples {
+			if len(tr) == 3 && tr[0] == t[0] && tr[1] == t[1] && tr[2] == t[2] {
+				out[i] = int(sid)
+				found = true
+			}
+		}
+		if !found {
+			return nil, fmt.Errorf("route for unknown triple %v", t)
+		}
+	}
+	return out, nil
 }
 
 // Scenario is one generated behaviour.
@@ -75,7 +111,25 @@ func ParseScenario(raw json.RawMessage) (*Scenario, error) {
 	if len(w.Trace.H) == 0 {
 		return nil, fmt.Errorf("empty behaviour")
 	}
+	if err := w.Trace.Project(); err != nil {
+		return nil, err
+	}
 	return &w.Trace, nil
+}
+
+// Project fills the per-triple projections of every entry.
+func (s *Scenario) Project() error {
+	for i := range s.H {
+		e := &s.H[i]
+		var err error
+		if e.Routes, err = perTriple(e.RoutesRaw, s.Triples); err != nil {
+			return err
+		}
+		if e.AllowedBy, err = perTriple(e.AllowRaw, s.Triples); err != nil {
+			return err
+		}
+	}
+	return nil
 }
 
 // Key is a canonical string of the abstract behaviour (for dedup / hashing).
